@@ -3,8 +3,10 @@ package main
 import (
 	"fmt"
 	"go/token"
+	"go/types"
 	"regexp/syntax"
 	"sort"
+	"strconv"
 	"strings"
 
 	"golang.org/x/tools/go/ssa"
@@ -12,20 +14,275 @@ import (
 
 const testGenPkg = Mod + "/cmd/test_gen"
 
+// A generator, identified by the regular expression it matches lines with: the abstract paths of
+// main (helpers spliced in, loop state symbolic) on which that expression is applied.
 type genBranch struct {
-	name    string // "coq" or "go"
-	entry   *ssa.BasicBlock
-	regex   string
-	reCall  *ssa.Call
-	find    *ssa.Call // FindStringSubmatch
-	fprintf []*ssa.Call
-	opens   []*ssa.Call // os.Open of the source files
+	name  string // "coq" or "go"
+	regex string
+	pos   token.Pos
+	paths []ipath
+}
+
+const findName = "(*regexp.Regexp).FindStringSubmatch"
+
+// regexOf resolves the receiver of a FindStringSubmatch call to the pattern it was compiled from:
+// regexp.MustCompile("…") in place, or a package-level variable initialised with it.
+func regexOf(p *Prog, e ievent) (string, bool) {
+	c, ok := e.In.(*ssa.Call)
+	if !ok || len(c.Call.Args) == 0 {
+		return "", false
+	}
+	var lit func(v ssa.Value, depth int) (string, bool)
+	lit = func(v ssa.Value, depth int) (string, bool) {
+		if depth > 4 {
+			return "", false
+		}
+		switch x := v.(type) {
+		case *ssa.Call:
+			n := calleeName(x)
+			if (n == "regexp.MustCompile" || n == "regexp.Compile") && len(x.Call.Args) == 1 {
+				return constString(x.Call.Args[0])
+			}
+		case *ssa.Extract:
+			return lit(x.Tuple, depth+1)
+		case *ssa.Phi:
+			out, okAll := "", true
+			for _, ed := range x.Edges {
+				s, ok := lit(ed, depth+1)
+				if !ok || out != "" && s != out {
+					okAll = false
+				}
+				out = s
+			}
+			return out, okAll && out != ""
+		case *ssa.Parameter:
+			// the compiled expression is passed in: the same literal at every call site
+			f := x.Parent()
+			idx := -1
+			for i, q := range f.Params {
+				if q == x {
+					idx = i
+				}
+			}
+			out, n := "", 0
+			for _, g := range p.srcFuncs {
+				bad := false
+				p.instrs(g, func(b *ssa.BasicBlock, i int, in ssa.Instruction) {
+					if ci, ok := in.(ssa.CallInstruction); ok && ci.Common().StaticCallee() == f && idx >= 0 && idx < len(ci.Common().Args) {
+						s, ok := lit(ci.Common().Args[idx], depth+1)
+						if !ok || out != "" && s != out {
+							bad = true
+						}
+						out = s
+						n++
+					}
+				})
+				if bad {
+					return "", false
+				}
+			}
+			return out, n > 0 && out != ""
+		case *ssa.UnOp:
+			if g, ok := x.X.(*ssa.Global); ok && x.Op == token.MUL && g.Pkg != nil {
+				if ini := g.Pkg.Func("init"); ini != nil {
+					out, n := "", 0
+					p.instrs(ini, func(b *ssa.BasicBlock, i int, in ssa.Instruction) {
+						if st, ok := in.(*ssa.Store); ok && st.Addr == ssa.Value(g) {
+							if s, ok := lit(st.Val, depth+1); ok {
+								out = s
+								n++
+							} else {
+								n += 2
+							}
+						}
+					})
+					// and nobody else assigns it
+					for _, fn := range p.srcFuncs {
+						if fn == ini {
+							continue
+						}
+						p.instrs(fn, func(b *ssa.BasicBlock, i int, in ssa.Instruction) {
+							if st, ok := in.(*ssa.Store); ok && st.Addr == ssa.Value(g) {
+								n += 2
+							}
+						})
+					}
+					return out, n == 1
+				}
+			}
+		}
+		return "", false
+	}
+	return lit(c.Call.Args[0], 0)
+}
+
+// suffixPredicate: g(name string) bool answers true exactly when name has one of a constant set of
+// suffixes — written as a disjunction of strings.HasSuffix tests or as a loop over a constant
+// package-level table. Returns the set.
+func suffixPredicate(p *Prog, g *ssa.Function) ([]string, bool) {
+	sig := g.Signature
+	if sig.Recv() != nil || sig.Params().Len() != 1 || sig.Results().Len() != 1 || len(g.Blocks) == 0 {
+		return nil, false
+	}
+	if types.TypeString(sig.Params().At(0).Type(), nil) != "string" || types.TypeString(sig.Results().At(0).Type(), nil) != "bool" {
+		return nil, false
+	}
+	name := g.Params[0].Name()
+	ips, ok := p.ipaths(g)
+	if !ok || len(ips) == 0 {
+		return nil, false
+	}
+	set := map[string]bool{}
+	var table *ssa.Global
+	n := 0
+	for _, ip := range ips {
+		for _, e := range ip.Events {
+			switch e.Callee {
+			case "len":
+			case "strings.HasSuffix":
+				n++
+				if len(e.Args) != 2 || e.Args[0] != name {
+					return nil, false
+				}
+				c := e.In.(*ssa.Call)
+				if s, ok := constString(c.Call.Args[1]); ok {
+					set[s] = true
+					continue
+				}
+				// element of a package-level table
+				ld, ok := c.Call.Args[1].(*ssa.UnOp)
+				if !ok {
+					return nil, false
+				}
+				ia, ok := ld.X.(*ssa.IndexAddr)
+				if !ok {
+					return nil, false
+				}
+				tl, ok := ia.X.(*ssa.UnOp)
+				if !ok {
+					return nil, false
+				}
+				gl, ok := tl.X.(*ssa.Global)
+				if !ok || table != nil && table != gl {
+					return nil, false
+				}
+				table = gl
+			default:
+				return nil, false
+			}
+		}
+		if ip.Exit != "return" || len(ip.Ret) != 1 {
+			return nil, false
+		}
+		pos := false
+		for k := range ip.Rels {
+			if strings.Contains(k, "strings.HasSuffix(") {
+				if strings.HasSuffix(k, " == true") || strings.HasPrefix(k, "true == ") {
+					pos = true
+				}
+				continue
+			}
+			if !isLoopBoundFact(k) {
+				return nil, false // the answer depends on something else
+			}
+		}
+		switch {
+		case ip.Ret[0] == "true":
+			if !pos {
+				return nil, false
+			}
+		case ip.Ret[0] == "false":
+			if pos {
+				return nil, false
+			}
+		case strings.HasPrefix(ip.Ret[0], "strings.HasSuffix("+name+","):
+		default:
+			return nil, false
+		}
+	}
+	if n == 0 {
+		return nil, false
+	}
+	if table != nil {
+		if len(set) > 0 {
+			return nil, false
+		}
+		elems, ok := constStringTable(p, table)
+		if !ok {
+			return nil, false
+		}
+		for _, e := range elems {
+			set[e] = true
+		}
+	}
+	return sortedKeys(set), true
+}
+
+// constStringTable: the elements of a package-level []string initialised with a literal and never assigned elsewhere.
+func constStringTable(p *Prog, g *ssa.Global) ([]string, bool) {
+	ini := g.Pkg.Func("init")
+	if ini == nil {
+		return nil, false
+	}
+	var out []string
+	n := 0
+	p.instrs(ini, func(b *ssa.BasicBlock, i int, in ssa.Instruction) {
+		st, ok := in.(*ssa.Store)
+		if !ok || st.Addr != ssa.Value(g) {
+			return
+		}
+		n++
+		sl, ok := st.Val.(*ssa.Slice)
+		if !ok {
+			n += 2
+			return
+		}
+		al, ok := sl.X.(*ssa.Alloc)
+		if !ok {
+			n += 2
+			return
+		}
+		for _, rf := range refs(al) {
+			if ia, ok := rf.(*ssa.IndexAddr); ok {
+				for _, r2 := range refs(ia) {
+					if s2, ok := r2.(*ssa.Store); ok {
+						if c, ok := constString(s2.Val); ok {
+							out = append(out, c)
+						} else {
+							n += 2
+						}
+					}
+				}
+			}
+		}
+	})
+	for _, fn := range p.srcFuncs {
+		if fn == ini {
+			continue
+		}
+		p.instrs(fn, func(b *ssa.BasicBlock, i int, in ssa.Instruction) {
+			switch x := in.(type) {
+			case *ssa.Store:
+				if x.Addr == ssa.Value(g) {
+					n += 2
+				}
+				// element assignment through the table
+				if ia, ok := x.Addr.(*ssa.IndexAddr); ok {
+					if ld, ok := ia.X.(*ssa.UnOp); ok && ld.X == ssa.Value(g) {
+						n += 2
+					}
+				}
+			}
+		})
+	}
+	sort.Strings(out)
+	return out, n == 1 && len(out) > 0
 }
 
 func checkC18(p *Prog, r *Report) {
 	r.Rule("R18a", "both generators' regular expressions denote the same language (Thompson NFAs from regexp/syntax, simultaneous subset construction over a common rune partition); the failing-prefix groups denote the same language; the Coq name group equals \"test\" followed by the Go name group; the function name is reconstructed from the groups exactly as it was matched", 5)
-	r.Rule("R18b", "both generators apply the same file filter: the set of constant suffixes tested with strings.HasSuffix on the file name is the same in both loops, every test's true edge skips the file (the open call is unreachable from it within the iteration), and the set contains the backup, gold and _test.go suffixes", 4)
-	r.Rule("R18c", "one emission per match: every test-emitting Fprintf is reached only under len(m) != 0; the Coq generator emits exactly one of the Fail/plain forms, the Fail form exactly under a non-empty failing group; the Go generator's emission sequence is brace-balanced and calls <failing-prefix>test<name>", 6)
+	r.Rule("R18b", "both generators apply the same file filter: on every abstract path of the generator (helpers spliced in) that opens a source file, the file name was tested negative for the backup, gold and _test.go suffixes (directly or through a helper that is a pure suffix predicate over a constant set); a positive test never reaches the open call; the sets of suffixes tested by the two generators are equal", 4)
+	r.Rule("R18c", "one emission per match: on every abstract path, Fprintf calls that print parts of the match occur only under len(m) != 0 (or m != nil); the Coq generator emits exactly one of the Fail/plain forms per match, the Fail form exactly under a non-empty failing group; the Go generator's emission sequence per match is brace-balanced, names Test<name> and calls <failing-prefix>test<name>", 6)
 	r.Rule("R18d", "the output file is opened with os.Create (truncating); no other file-opening-for-write call exists in the generator", 1)
 	r.Assume = append(r.Assume, "matches inside raw strings or block comments are a limitation of the line-regex approach shared by both generators and are not decided", "bufio.Scanner yields lines without newline")
 	f := p.Func(testGenPkg, "main")
@@ -34,85 +291,93 @@ func checkC18(p *Prog, r *Report) {
 		return
 	}
 	r.Func(FuncName(f))
-	// branches: If on t == "coq" / t == "go"
-	br := map[string]*genBranch{}
-	p.instrs(f, func(b *ssa.BasicBlock, i int, in ssa.Instruction) {
-		ifc, ok := in.(*ssa.If)
-		if !ok {
-			return
+	// helpers that are pure suffix predicates stay opaque (their meaning is the constant set)
+	preds := map[*ssa.Function][]string{}
+	keep := map[*ssa.Function]bool{}
+	for _, g := range p.FuncsIn(testGenPkg) {
+		if g == f || g.Parent() != nil {
+			continue
 		}
-		bo, ok := ifc.Cond.(*ssa.BinOp)
-		if !ok || bo.Op != token.EQL {
-			return
+		if set, ok := suffixPredicate(p, g); ok {
+			preds[g] = set
+			keep[g] = true
+			r.Func(FuncName(g))
 		}
-		if s, ok := constString(bo.Y); ok && (s == "coq" || s == "go") {
-			br[s] = &genBranch{name: s, entry: b.Succs[0]}
-		}
-	})
-	if br["coq"] == nil || br["go"] == nil {
-		r.Unknown("R18a", "generator branches", f.Pos(), "cannot find the `t == \"coq\"` / `t == \"go\"` branches")
+	}
+	ips, ok := p.ipathsHavoc(f, keep)
+	if !ok {
+		r.Unknown("R18a", "generator paths", f.Pos(), "the abstract paths of main could not be enumerated")
 		return
 	}
-	inBranch := func(g *genBranch, b *ssa.BasicBlock) bool {
-		other := br["go"]
-		if g.name == "go" {
-			other = br["coq"]
+	gens := map[string]*genBranch{}
+	for _, ip := range ips {
+		if ip.Exit != "return" {
+			continue
 		}
-		return g.entry.Dominates(b) && !(other.entry.Dominates(b) && g.entry.Dominates(other.entry))
-	}
-	for _, g := range br {
-		g := g
-		p.instrs(f, func(b *ssa.BasicBlock, i int, in ssa.Instruction) {
-			c, ok := in.(*ssa.Call)
-			if !ok || !inBranch(g, b) {
-				return
-			}
-			switch calleeName(c) {
-			case "regexp.MustCompile", "regexp.Compile":
-				if s, ok := constString(c.Call.Args[0]); ok {
-					g.regex, g.reCall = s, c
-				}
-			case "(*regexp.Regexp).FindStringSubmatch":
-				g.find = c
-			case "fmt.Fprintf":
-				g.fprintf = append(g.fprintf, c)
-			case "os.Open":
-				g.opens = append(g.opens, c)
-			}
-		})
-	}
-	for _, n := range []string{"coq", "go"} {
-		g := br[n]
-		if g.reCall == nil || g.find == nil || len(g.opens) != 1 {
-			r.Unknown("R18a", n+" generator shape", f.Pos(), fmt.Sprintf("regex literal=%v FindStringSubmatch=%v opens=%d", g.reCall != nil, g.find != nil, len(g.opens)))
+		fs := ip.eventsOf(findName)
+		if len(fs) != 1 {
+			continue
+		}
+		re, ok := regexOf(p, fs[0])
+		if !ok {
+			r.Unknown("R18a", "generator regular expression", instrPos(fs[0].In), "the receiver of FindStringSubmatch is not a regexp compiled from one constant pattern")
 			return
 		}
+		if gens[re] == nil {
+			gens[re] = &genBranch{regex: re, pos: instrPos(fs[0].In)}
+		}
+		gens[re].paths = append(gens[re].paths, ip)
+	}
+	br := map[string]*genBranch{}
+	for _, g := range gens {
+		for _, ip := range g.paths {
+			for _, e := range ip.eventsOf("fmt.Fprintf") {
+				if len(e.Args) < 2 {
+					continue
+				}
+				switch {
+				case strings.Contains(e.Args[1], "Example "):
+					g.name = "coq"
+				case strings.Contains(e.Args[1], "func (suite"):
+					g.name = "go"
+				}
+			}
+		}
+		if g.name != "" {
+			br[g.name] = g
+		}
+	}
+	if len(gens) != 2 || br["coq"] == nil || br["go"] == nil {
+		r.Unknown("R18a", "generator shape", f.Pos(), fmt.Sprintf("expected two generators (one emitting Coq examples, one Go suite methods), each applying one regular expression; found %d expressions, coq=%v go=%v", len(gens), br["coq"] != nil, br["go"] != nil))
+		return
 	}
 	r.Table("regexes", map[string]string{"coq": br["coq"].regex, "go": br["go"].regex})
 	checkRegexes(r, br["coq"], br["go"])
-	checkFilters(p, r, f, br)
+	checkFilters(p, r, f, ips, br, preds)
 	checkEmissions(p, r, f, br)
 	// R18d
 	var creates, others []string
-	p.instrs(f, func(b *ssa.BasicBlock, i int, in ssa.Instruction) {
-		if c, ok := in.(*ssa.Call); ok {
-			switch calleeName(c) {
-			case "os.Create":
-				creates = append(creates, p.Pos(instrPos(c)))
-			case "os.OpenFile":
-				fl, okc := foldInt(c.Call.Args[1])
-				if !(okc && fl&0x200 != 0) { // O_TRUNC on linux
-					others = append(others, "os.OpenFile without O_TRUNC at "+p.Pos(instrPos(c)))
+	for _, g := range p.region([]*ssa.Function{f}) {
+		p.instrs(g, func(b *ssa.BasicBlock, i int, in ssa.Instruction) {
+			if c, ok := in.(*ssa.Call); ok {
+				switch calleeName(c) {
+				case "os.Create":
+					creates = append(creates, p.Pos(instrPos(c)))
+				case "os.OpenFile":
+					fl, okc := foldInt(c.Call.Args[1])
+					if !(okc && fl&0x200 != 0) { // O_TRUNC on linux
+						others = append(others, "os.OpenFile without O_TRUNC at "+p.Pos(instrPos(c)))
+					}
 				}
 			}
-		}
-	})
+		})
+	}
 	r.Check("R18d", "output file is truncated on open", f.Pos(), len(creates) >= 1 && len(others) == 0,
 		fmt.Sprintf("os.Create calls: %v; %s: regenerating into an existing longer file would keep its tail", creates, strings.Join(others, ", ")))
 }
 
 func checkRegexes(r *Report, cq, gq *genBranch) {
-	pos := cq.reCall.Pos()
+	pos := cq.pos
 	eq, diff, err := regexEquiv(cq.regex, gq.regex)
 	if err != nil {
 		r.Unknown("R18a", "regex languages equal", pos, "cannot analyse: "+err.Error())
@@ -192,252 +457,262 @@ func checkRegexes(r *Report, cq, gq *genBranch) {
 		fmt.Sprintf("between the failing group and the name group: Coq has %q (want \"\"), Go has %q (want \"test\"): the emitted call must spell the matched function name", bc, bg))
 }
 
-// suffixTests returns, for the file loop of a branch, the HasSuffix constants and whether each true edge skips the file.
-func checkFilters(p *Prog, r *Report, f *ssa.Function, br map[string]*genBranch) {
+// suffixFacts: the suffix tests a path has decided about a file name: per tested name key, the
+// constants tested negative and positive (helpers that are suffix predicates contribute their set).
+func suffixFacts(ip ipath, preds map[*ssa.Function][]string) (neg, pos map[string]map[string]bool) {
+	neg, pos = map[string]map[string]bool{}, map[string]map[string]bool{}
+	add := func(m map[string]map[string]bool, k, s string) {
+		if m[k] == nil {
+			m[k] = map[string]bool{}
+		}
+		m[k][s] = true
+	}
+	for k := range ip.Rels {
+		val, call := false, ""
+		switch {
+		case strings.HasSuffix(k, " == true"):
+			val, call = true, strings.TrimSuffix(k, " == true")
+		case strings.HasSuffix(k, " == false"):
+			val, call = false, strings.TrimSuffix(k, " == false")
+		case strings.HasPrefix(k, "true == "):
+			val, call = true, strings.TrimPrefix(k, "true == ")
+		case strings.HasPrefix(k, "false == "):
+			val, call = false, strings.TrimPrefix(k, "false == ")
+		default:
+			continue
+		}
+		n, a, ok := parseCallKey(call)
+		if !ok {
+			continue
+		}
+		if n == "strings.HasSuffix" && len(a) == 2 && len(a[1]) >= 2 && a[1][0] == '"' {
+			if s, err := strconv.Unquote(a[1]); err == nil {
+				if val {
+					add(pos, a[0], s)
+				} else {
+					add(neg, a[0], s)
+				}
+			}
+			continue
+		}
+		for g, set := range preds {
+			if n == FuncName(g) && len(a) == 1 {
+				for _, s := range set {
+					if val {
+						add(pos, a[0], s)
+					} else {
+						add(neg, a[0], s)
+					}
+				}
+			}
+		}
+	}
+	return neg, pos
+}
+
+func checkFilters(p *Prog, r *Report, f *ssa.Function, ips []ipath, br map[string]*genBranch, preds map[*ssa.Function][]string) {
+	need := []string{"~", ".gold.v", "_test.go"}
+	// every returning path that opens a source file has tested its name negative for the needed suffixes
+	nOpen := 0
+	bad := ""
+	for _, ip := range ips {
+		if ip.Exit != "return" {
+			continue
+		}
+		opens := ip.eventsOf("os.Open")
+		if len(opens) == 0 {
+			continue
+		}
+		nOpen++
+		neg, pos := suffixFacts(ip, preds)
+		for _, o := range opens {
+			okName := false
+			for k, set := range neg {
+				if !strings.Contains(o.Args[0], k) {
+					continue
+				}
+				all := true
+				for _, s := range need {
+					if !set[s] {
+						all = false
+					}
+				}
+				if all {
+					okName = true
+				}
+			}
+			if !okName {
+				bad = fmt.Sprintf("os.Open(%s) is reached without the file name having been tested negative for all of %v on the path %s", o.Args[0], need, ip.Trace)
+			}
+			for k := range pos {
+				if strings.Contains(o.Args[0], k) {
+					bad = fmt.Sprintf("a file whose name has a skipped suffix is opened (os.Open(%s)) on the path %s", o.Args[0], ip.Trace)
+				}
+			}
+		}
+	}
+	if nOpen == 0 {
+		r.Unknown("R18b", "generator file filter", f.Pos(), "no returning path opens a source file")
+		return
+	}
+	r.Check("R18b", "source files are opened only after the backup, gold and test suffixes were excluded", f.Pos(), bad == "", bad)
 	sets := map[string][]string{}
 	for _, n := range []string{"coq", "go"} {
-		g := br[n]
-		open := g.opens[0]
-		// loop header of the file loop: nearest dominator of open's block with a back edge
-		var header *ssa.BasicBlock
-		for b := open.Block(); b != nil; b = b.Idom() {
-			for _, pr := range b.Preds {
-				if b.Dominates(pr) {
-					header = b
-				}
-			}
-			if header != nil {
-				break
-			}
-		}
-		var consts []string
-		okSkip := true
-		unknownFilter := ""
-		p.instrs(f, func(b *ssa.BasicBlock, i int, in ssa.Instruction) {
-			c, ok := in.(*ssa.Call)
-			if !ok || header == nil || !header.Dominates(b) || !b.Dominates(open.Block()) && !reachesBlock(b, open.Block(), header) {
-				return
-			}
-			// only tests that lie between the loop header and the open call
-			if !reachesBlock(b, open.Block(), header) && b != open.Block() {
-				return
-			}
-			cal := calleeName(c)
-			if cal == "strings.HasSuffix" {
-				s, okc := constString(c.Call.Args[1])
-				if !okc {
-					unknownFilter = "non-constant suffix"
-					return
-				}
-				consts = append(consts, s)
-				// the true edge must not reach the open call within the iteration
-				for _, rf := range refs(c) {
-					if ifc, ok := rf.(*ssa.If); ok {
-						if pathAvoiding(ifc.Block().Succs[0], open.Block(), map[*ssa.BasicBlock]bool{header: true}, nil, p) {
-							okSkip = false
-						}
+		all := map[string]bool{}
+		for _, ip := range br[n].paths {
+			neg, pos := suffixFacts(ip, preds)
+			for _, m := range []map[string]map[string]bool{neg, pos} {
+				for _, set := range m {
+					for s := range set {
+						all[s] = true
 					}
 				}
-				return
 			}
-			if cf := calleeOf(&c.Call); cf != nil && cf.Pkg != nil && InRepo(cf.Pkg.Pkg.Path()) && cf != f {
-				// a helper deciding the filter: collect its HasSuffix constants; anything else is unrecognised
-				n := 0
-				p.instrs(cf, func(b2 *ssa.BasicBlock, i2 int, in2 ssa.Instruction) {
-					if c2, ok := in2.(*ssa.Call); ok {
-						switch calleeName(c2) {
-						case "strings.HasSuffix":
-							if s, okc := constString(c2.Call.Args[1]); okc {
-								consts = append(consts, s)
-								n++
-							}
-						default:
-							unknownFilter = "helper " + cf.Name() + " decides with " + calleeName(c2)
-						}
-					}
-				})
-				if n == 0 && unknownFilter == "" {
-					unknownFilter = "helper " + cf.Name() + " has no suffix tests"
-				}
-			}
-		})
-		sort.Strings(consts)
-		sets[n] = consts
-		if unknownFilter != "" {
-			r.Unknown("R18b", n+" generator file filter", instrPos(open), "filter outside the recognised idiom (constant strings.HasSuffix tests): "+unknownFilter)
-		} else {
-			r.Check("R18b", n+" generator filter skips", instrPos(open), okSkip && header != nil, "a suffix test's true edge reaches the open call: the file is not skipped")
 		}
+		sets[n] = sortedKeys(all)
+		miss := []string{}
+		for _, s := range need {
+			if !all[s] {
+				miss = append(miss, s)
+			}
+		}
+		r.Check("R18b", n+" generator filter covers backup, gold and test files", br[n].pos, len(miss) == 0,
+			fmt.Sprintf("suffixes not skipped: %v (backup copies duplicate tests; the generated _test.go and the gold file are not sources)", miss))
 	}
 	r.Table("file filters", sets)
 	same := strings.Join(sets["coq"], "|") == strings.Join(sets["go"], "|")
-	r.Check("R18b", "filters agree", br["go"].opens[0].Pos(), same, fmt.Sprintf("Coq generator skips suffixes %v, Go generator skips %v: a file scanned by only one of them yields tests the other lacks", sets["coq"], sets["go"]))
-	need := []string{"~", ".gold.v", "_test.go"}
-	miss := []string{}
-	for _, s := range need {
-		found := false
-		for _, c := range sets["go"] {
-			if c == s {
-				found = true
-			}
-		}
-		if !found {
-			miss = append(miss, s)
-		}
-	}
-	r.Check("R18b", "filter covers backup, gold and test files", br["go"].opens[0].Pos(), len(miss) == 0,
-		fmt.Sprintf("suffixes not skipped: %v (backup copies duplicate tests; the generated _test.go and the gold file are not sources)", miss))
+	r.Check("R18b", "filters agree", br["go"].pos, same, fmt.Sprintf("Coq generator skips suffixes %v, Go generator skips %v: a file scanned by only one of them yields tests the other lacks", sets["coq"], sets["go"]))
 }
 
-// reachesBlock: can `to` be reached from `from` without passing `stop`?
-func reachesBlock(from, to, stop *ssa.BasicBlock) bool {
-	seen := map[*ssa.BasicBlock]bool{}
-	q := []*ssa.BasicBlock{from}
-	for len(q) > 0 {
-		b := q[0]
-		q = q[1:]
-		if seen[b] {
-			continue
-		}
-		seen[b] = true
-		if b == to {
+func hasAny(rs relSet, keys ...string) bool {
+	for _, k := range keys {
+		if rs[k] {
 			return true
-		}
-		for _, s := range b.Succs {
-			if s != stop {
-				q = append(q, s)
-			}
 		}
 	}
 	return false
 }
 
 func checkEmissions(p *Prog, r *Report, f *ssa.Function, br map[string]*genBranch) {
-	rm := p.Rels(f)
 	for _, n := range []string{"coq", "go"} {
 		g := br[n]
-		mKey := sk(g.find)
-		var emit []*ssa.Call
-		for _, c := range g.fprintf {
-			// test emissions are those dominated by the FindStringSubmatch call
-			if dominatesInstr(g.find, c) {
-				emit = append(emit, c)
+		nMatch, nEmit := 0, 0
+		unguarded, formBad, argBad, goBad := "", "", "", ""
+		for _, ip := range g.paths {
+			mk := ip.eventsOf(findName)[0].Key
+			m := func(i int) string { return mk + "[" + itoa(i) + "]" }
+			var emit []ievent
+			for _, e := range ip.eventsOf("fmt.Fprintf") {
+				if len(e.Args) >= 3 && strings.Contains(e.Args[2], mk) {
+					emit = append(emit, e)
+				}
 			}
-		}
-		if len(emit) == 0 {
-			r.Unknown("R18c", n+" generator emissions", f.Pos(), "no Fprintf after the match")
-			continue
-		}
-		allGuarded := true
-		for _, c := range emit {
-			rs := p.RelsAt(rm, c)
-			if !rs["0 != len("+mKey+")"] && !rs["0 < len("+mKey+")"] {
-				allGuarded = false
+			lm := "len(" + mk + ")"
+			matched := hasAny(ip.Rels, "0 != "+lm, "0 < "+lm, eqRelNe("nil", mk), lm+" != 0")
+			noMatch := hasAny(ip.Rels, eqRel("0", lm), eqRel("nil", mk), lm+" <= 0")
+			if len(emit) > 0 {
+				nEmit++
+				if !matched {
+					unguarded = "a test-emitting Fprintf is reached without the fact len(m) != 0 on the path " + ip.Trace
+				}
 			}
-		}
-		r.Check("R18c", n+" generator emits only on a match", instrPos(emit[0]), allGuarded, "a test-emitting Fprintf is reachable without the fact len(m) != 0")
-		// argKeys renders the variadic arguments structurally: "[m[3],m[2]]" when each is an element of the match slice
-		argKeys := func(c *ssa.Call) string {
-			sl, ok := c.Call.Args[2].(*ssa.Slice)
-			if !ok {
-				return "?"
+			if matched {
+				nMatch++
 			}
-			a, ok := sl.X.(*ssa.Alloc)
-			if !ok {
-				return "?"
+			if !matched && !noMatch {
+				unguarded = "the path neither establishes nor excludes a match before continuing: " + ip.Trace
 			}
-			elems := map[int64]string{}
-			max := int64(-1)
-			for _, rf := range refs(a) {
-				ia, ok := rf.(*ssa.IndexAddr)
-				if !ok {
+			fm := func(e ievent) string {
+				s, err := strconv.Unquote(e.Args[1])
+				if err != nil {
+					return e.Args[1]
+				}
+				return s
+			}
+			if n == "coq" {
+				if !matched {
 					continue
 				}
-				i, _ := constInt(ia.Index)
-				for _, r2 := range refs(ia) {
-					st, ok := r2.(*ssa.Store)
-					if !ok {
+				if len(emit) != 1 {
+					formBad = fmt.Sprintf("%d emissions for one matched line on the path %s", len(emit), ip.Trace)
+					continue
+				}
+				gk := "len(" + m(2) + ")"
+				failing := hasAny(ip.Rels, "0 != "+gk, "0 < "+gk, eqRelNe(`""`, m(2)))
+				plain := hasAny(ip.Rels, eqRel("0", gk), gk+" <= 0", eqRel(`""`, m(2)))
+				fs := fm(emit[0])
+				switch {
+				case strings.HasPrefix(fs, "Fail Example "):
+					if !failing {
+						formBad = "the Fail form is emitted without the fact that the failing group is non-empty: " + ip.Trace
+					}
+					if emit[0].Args[2] != "["+m(3)+","+m(2)+","+m(3)+"]" || !strings.Contains(fs, " : %s%s ") {
+						argBad = fmt.Sprintf("Fail: %q %s", fs, emit[0].Args[2])
+					}
+				case strings.HasPrefix(fs, "Example "):
+					if !plain {
+						formBad = "the plain form is emitted without the fact that the failing group is empty: " + ip.Trace
+					}
+					if emit[0].Args[2] != "["+m(3)+","+m(3)+"]" || !strings.Contains(fs, " : %s ") {
+						argBad = fmt.Sprintf("plain: %q %s", fs, emit[0].Args[2])
+					}
+				default:
+					formBad = fmt.Sprintf("unexpected emission %q", fs)
+				}
+			} else {
+				if !matched {
+					continue
+				}
+				// the whole per-match sequence: every Fprintf between the match and the end of the iteration
+				depth := 0
+				okCallee, okName := false, false
+				after := false
+				for _, e := range ip.Events {
+					if e.Callee == findName {
+						after = true
 						continue
 					}
-					v := st.Val
-					if mi, ok := v.(*ssa.MakeInterface); ok {
-						v = mi.X
+					if !after || e.Callee != "fmt.Fprintf" || len(e.Args) < 2 {
+						continue
 					}
-					e := "?"
-					if ld, ok := v.(*ssa.UnOp); ok {
-						if ea, ok := ld.X.(*ssa.IndexAddr); ok && ea.X == ssa.Value(g.find) {
-							if k, ok := constInt(ea.Index); ok {
-								e = "m[" + itoa(int(k)) + "]"
-							}
-						}
+					fs := fm(e)
+					depth += strings.Count(fs, "{") - strings.Count(fs, "}")
+					if strings.Contains(fs, "%stest%s()") && len(e.Args) >= 3 && e.Args[2] == "["+m(2)+","+m(3)+"]" {
+						okCallee = true
 					}
-					elems[i] = e
-					if i > max {
-						max = i
+					if strings.HasPrefix(fs, "func (suite *GoTestSuite) Test%s()") && len(e.Args) >= 3 && e.Args[2] == "["+m(3)+"]" {
+						okName = true
 					}
 				}
+				if depth != 0 {
+					goBad = fmt.Sprintf("net brace depth %d over the formats emitted for one match on the path %s", depth, ip.Trace)
+				}
+				if !okCallee || !okName {
+					goBad = "a matched line does not produce `func (suite *GoTestSuite) Test<name>()` with a call of <failing group>test<name>() on the path " + ip.Trace
+				}
 			}
-			var es []string
-			for i := int64(0); i <= max; i++ {
-				es = append(es, elems[i])
-			}
-			return "[" + strings.Join(es, ",") + "]"
 		}
-		m := func(i int) string { return "m[" + itoa(i) + "]" }
+		if nMatch == 0 || nEmit == 0 {
+			r.Unknown("R18c", n+" generator emissions", g.pos, fmt.Sprintf("%d paths with a match, %d with an emission", nMatch, nEmit))
+			continue
+		}
+		r.Check("R18c", n+" generator emits only on a match", g.pos, unguarded == "", unguarded)
 		if n == "coq" {
-			var failC, plainC *ssa.Call
-			for _, c := range emit {
-				fs, _ := constString(c.Call.Args[1])
-				if strings.HasPrefix(fs, "Fail Example ") {
-					failC = c
-				} else if strings.HasPrefix(fs, "Example ") {
-					plainC = c
-				}
-			}
-			if failC == nil || plainC == nil || len(emit) != 2 {
-				r.Fail("R18c", "coq generator has one Fail and one plain form", instrPos(emit[0]), fmt.Sprintf("found %d emissions (Fail=%v plain=%v)", len(emit), failC != nil, plainC != nil), "")
-				continue
-			}
-			// mutually exclusive and selected by the failing group
-			excl := !reachesInstr(failC, plainC) || !failC.Block().Dominates(plainC.Block())
-			exclOK := failC.Block() != plainC.Block() && !pathWithin(failC.Block(), plainC.Block(), g.find.Block()) && !pathWithin(plainC.Block(), failC.Block(), g.find.Block())
-			_ = excl
-			r.Check("R18c", "coq generator emits exactly one form per match", instrPos(failC), exclOK, "both forms can be emitted for one matched line")
-			rsF, rsP := p.RelsAt(rm, failC), p.RelsAt(rm, plainC)
-			gk := "len(" + mKey + "[2])"
-			r.Check("R18c", "coq Fail form exactly when the failing group is non-empty", instrPos(failC),
-				(rsF["0 != "+gk] || rsF["0 < "+gk]) && (rsP[eqRel("0", gk)] || rsP[gk+" <= 0"]),
-				fmt.Sprintf("Fail form facts %v; plain form facts %v; need len(m[2]) != 0 resp. == 0", relList(rsF), relList(rsP)))
-			fsF, _ := constString(failC.Call.Args[1])
-			fsP, _ := constString(plainC.Call.Args[1])
-			okArgs := argKeys(failC) == "["+m(3)+","+m(2)+","+m(3)+"]" && strings.Contains(fsF, " : %s%s ") &&
-				argKeys(plainC) == "["+m(3)+","+m(3)+"]" && strings.Contains(fsP, " : %s ")
-			r.Check("R18c", "coq emission names the matched function", instrPos(failC), okArgs,
-				fmt.Sprintf("Fail: %q %s; plain: %q %s; the callee must be <failing group><name group>", fsF, argKeys(failC), fsP, argKeys(plainC)))
+			r.Check("R18c", "coq generator emits exactly one form per match", g.pos, formBad == "" || !strings.Contains(formBad, "emissions for one"), formBad)
+			r.Check("R18c", "coq Fail form exactly when the failing group is non-empty", g.pos, formBad == "" || strings.Contains(formBad, "emissions for one"), formBad)
+			r.Check("R18c", "coq emission names the matched function", g.pos, argBad == "", argBad+"; the callee must be <failing group><name group>")
 		} else {
-			// go: one straight-line sequence in a single block, braces balanced, callee = m[2]+"test"+m[3]
-			blk := emit[0].Block()
-			same := true
-			depth := 0
-			okCallee, okName := false, false
-			for _, c := range emit {
-				if c.Block() != blk {
-					same = false
-				}
-				fs, _ := constString(c.Call.Args[1])
-				depth += strings.Count(fs, "{") - strings.Count(fs, "}")
-				if strings.Contains(fs, "%stest%s()") && argKeys(c) == "["+m(2)+","+m(3)+"]" {
-					okCallee = true
-				}
-				if strings.HasPrefix(fs, "func (suite *GoTestSuite) Test%s()") && argKeys(c) == "["+m(3)+"]" {
-					okName = true
-				}
-			}
-			r.Check("R18c", "go generator emits one straight-line test per match", instrPos(emit[0]), same, "the emission is split over several blocks: a match can emit a partial or repeated test")
-			r.Check("R18c", "go emission is brace-balanced", instrPos(emit[0]), depth == 0, fmt.Sprintf("net brace depth %d over the emitted formats", depth))
-			r.Check("R18c", "go emission names and calls the matched function", instrPos(emit[0]), okCallee && okName, "need `func (suite *GoTestSuite) Test<name>()` and a call of <failing group>test<name>()")
+			r.Check("R18c", "go generator emits one complete test per match", g.pos, goBad == "", goBad)
 		}
 	}
+}
+
+// eqRelNe: the canonical "a != b" relation.
+func eqRelNe(a, b string) string {
+	if b < a {
+		a, b = b, a
+	}
+	return a + " != " + b
 }
 
 // pathWithin: is b reachable from a without passing through `stop`?
